@@ -36,4 +36,9 @@ theorem files30 : GenV30.hook_decls = ["zz_verif_hooks.go:func VerifBytes", "zz_
 /-- which function mentions which package-level table or pool (the `error` sentinels aside): nothing else in the package —
     no `Error()` method, initialiser or untranslated helper — can read or write them, whatever aliasing it might use -/
 theorem uses30 : GenV30.pkg_var_uses = [] := by decide
+/-- the only pre-sized buffer is `Vector`'s (its capacity is pinned by `C17.cap_eq_lenVec30`; a run-time capacity anywhere else
+    would be an unmodelled panic source), the only mention of package `unsafe` is `Vector`'s string conversion, and the hooks file is
+    byte for byte the committed one -/
+theorem buffers30 : GenV30.pkg_presized = ["CVSS30.Vector"] ∧ GenV30.pkg_unsafe_all = ["CVSS30.Vector:unsafe.Pointer"] ∧
+    GenV30.hook_sha = ["zz_verif_hooks.go:6fcc9fa640673df6"] := by decide
 end StateTie
